@@ -133,6 +133,12 @@ func (k Keeper) IterateCompletedUnbondings(ctx context.Context, now time.Time, c
 				return true, err
 			}
 
+			// The index key is truncated to whole seconds: an entry of the current second
+			// may complete later than now and is then still held by the staking module.
+			if value.CompletionTime.After(now) {
+				return false, nil
+			}
+
 			return cb(id, value)
 		},
 	)
